@@ -95,7 +95,7 @@ def audit_2d(rep, rec):
     if c["configuration"] == "VISF":
         # evaporation at the top, only inside the vacuum window (time of the step as in the 1D audit)
         t = np.asarray(S.time) * 3600
-        qt = np.array([(-(sr.flux_2d(S, Tprev[k][-1]) * c["Dh_evaporation"]) * ar).sum()
+        qt = np.array([(-(sr.flux_2d(S, Tprev[k][-1], True) * c["Dh_evaporation"]) * ar).sum()
                        if c["t_vac_start"] * 3600 < t[k] < (c["t_vac_start"] + c["t_vac_duration"]) * 3600 else 0.0 for k in range(ie + 1)])
     q = np.cumsum(dt * (qb + qs + qt))
     ref = np.abs(q).max() + 1e-30
